@@ -80,6 +80,23 @@ Theorem flying_nonneg_interleaved : forall c t0 calls sched,
   0 <= flying (fst (crun (start c t0 calls) sched)).
 Proof. exact conc_nonneg_core. Qed.
 
+(* 1'. Theorem 1 for concurrent calls, PARTIAL: an Allow thread that returns
+      ErrServiceOverloaded after any schedule read an in-flight count [tfl] and an
+      average [tavg] above 10% of the capacity computed from the maxPass / minRt it read
+      ([reg_capacity]); each of these was the value of the shared state at the thread's
+      own read action and may be stale at the time of the verdict.
+      Full statement (not proved for interleavings): additionally, cpu1 >= threshold, or
+      some thread had been shed before this thread's droppedRecently read and some Allow
+      thread with cpu >= threshold stored an overloadTime less than coolOffDuration
+      before this thread's [now].  Missing: the invariant tying the registers [tot] and
+      the droppedRecently read to other threads' completed actions. *)
+Theorem shed_only_if_loaded_interleaved_partial : forall c t0 calls sched i t now cpu1 cpu2,
+  nth_error (snd (crun (start c t0 calls) sched)) i = Some t ->
+  tcall t = CAllow now cpu1 cpu2 -> tres t = Some RShed ->
+  (overloadFactorLowerBound * reg_capacity (window_scale c) t < inject_Z (tfl t))%Q /\
+  (overloadFactorLowerBound * reg_capacity (window_scale c) t < tavg t)%Q.
+Proof. exact conc_shed_only_loaded_core. Qed.
+
 (* 4. With nothing in flight no request is shed (capacity >= 1). *)
 Theorem idle_never_sheds : forall c t0 pre now cpu1 cpu2,
   cenabled c = true ->
@@ -140,6 +157,7 @@ Print Assumptions shed_when_saturated.
 Print Assumptions flying_conservation_wf.
 Print Assumptions flying_nonneg_interleaved.
 Print Assumptions capacity_def.
+Print Assumptions shed_only_if_loaded_interleaved_partial.
 
 (* ------------------------------------------------------------------ *)
 (* The hypotheses are satisfiable by concrete, non-trivial histories.    *)
@@ -215,4 +233,14 @@ Example ex_conc_interleaved :
   let sched := [0;1;0;1;0;1;0;1;0;1;0;1;2;3;3;2;2;3]%nat in
   let m := crun (start cfg1 B calls) sched in
   flying (fst m) = 0 /\ map tres (snd m) = [Some RAdmit; Some RAdmit; Some RDone; Some RDone].
+Proof. vm_compute. split; reflexivity. Qed.
+
+(* a concurrent Allow that is shed (hypotheses of theorem 1' are met) *)
+Example ex_conc_shed :
+  let calls := map (fun _ => CAllow B 0 0) (seq 0 12) ++ map (fun i => CFail i) (seq 0 6)
+               ++ [CAllow (B + 1) 1000 1000] in
+  let sched := (concat (map (fun i => repeat i 10) (seq 0 12)) ++ concat (map (fun i => repeat i 3) (seq 12 6))
+                ++ repeat 18 10)%nat in
+  let m := crun (start cfg1 B calls) sched in
+  option_map tres (nth_error (snd m) 18) = Some (Some RShed) /\ flying (fst m) = 6.
 Proof. vm_compute. split; reflexivity. Qed.
